@@ -354,6 +354,12 @@ func (runInfo *runInfoStruct) invokeMemberExpr(expr *ast.MemberExpr) {
 	}
 
 	if env, ok := runInfo.rv.Interface().(*env.Env); ok {
+		if env == nil {
+			// the zero value of a type defined from a module
+			runInfo.err = newStringError(expr, "nil module does not support member operation")
+			runInfo.rv = nilValue
+			return
+		}
 		runInfo.rv, runInfo.err = env.GetValue(expr.Name)
 		if runInfo.err != nil {
 			runInfo.err = newError(expr, runInfo.err)
